@@ -48,6 +48,9 @@ type CertSpec struct {
 	SKI        []byte // overrides the key-derived subject key identifier
 	RawSubject []byte // DER subject copied verbatim (exact look-alike of another certificate's name)
 	AKI        []byte // authority key identifier written into the certificate instead of the issuer's subject key identifier (it is only a hint)
+	// SerialRaw, when set, is the DER INTEGER content of the serial number, put in after the standard library has made
+	// the certificate (which refuses zero and negative numbers) and signed again by the issuer: {0x00} is zero, {0xfb} is -5
+	SerialRaw []byte
 }
 
 func intelName(cn string) pkix.Name {
@@ -129,6 +132,15 @@ func MakeCert(spec CertSpec, issuer *Cert) *Cert {
 	if err != nil {
 		panic(fmt.Sprintf("harness: CreateCertificate(%s): %v", spec.CN, err))
 	}
+	if spec.SerialRaw != nil {
+		der, err = RebuildCert(der, signer, func(k [][]byte) [][]byte {
+			k[1] = (&Node{Tag: 0x02, Content: spec.SerialRaw}).Encode()
+			return k
+		})
+		if err != nil {
+			panic(fmt.Sprintf("harness: RebuildCert(%s): %v", spec.CN, err))
+		}
+	}
 	x, err := x509.ParseCertificate(der)
 	if err != nil {
 		panic(fmt.Sprintf("harness: ParseCertificate(%s): %v", spec.CN, err))
@@ -170,6 +182,8 @@ type PKISpec struct {
 	QeW            Window // QE-Identity signer (distinct certificate)
 	RootSerial     []byte
 	IntSerial      []byte
+	IntSerialRaw   []byte // see CertSpec.SerialRaw
+	TcbSerialRaw   []byte
 	TcbSerial      []byte
 	QeSerial       []byte
 	RootCRLDP      []string
@@ -231,8 +245,8 @@ func NewPKI(spec PKISpec) *PKI {
 	if spec.OddAKI {
 		aki = []byte{0xa1, 0xa2, 0xa3, 0xa4, 0xa5, 0xa6, 0xa7, 0xa8, 0xa9, 0xaa, 0xab, 0xac, 0xad, 0xae, 0xaf, 0xb0, 0xb1, 0xb2, 0xb3, 0xb4}
 	}
-	p.Int = MakeCert(CertSpec{CN: spec.IntCN, KeyLabel: spec.Seed + "/int", Serial: serialOr(spec.IntSerial, spec.Seed+"/int"), NotBefore: iw.NotBefore, NotAfter: iw.NotAfter, CA: true, CRLDP: spec.RootCRLDP, AKI: aki}, p.Root)
-	p.TcbSig = MakeCert(CertSpec{CN: CNTcbSigner, KeyLabel: spec.Seed + "/tcb", Serial: serialOr(spec.TcbSerial, spec.Seed+"/tcb"), NotBefore: tw.NotBefore, NotAfter: tw.NotAfter, CRLDP: spec.RootCRLDP, AKI: aki}, p.Root)
+	p.Int = MakeCert(CertSpec{CN: spec.IntCN, KeyLabel: spec.Seed + "/int", Serial: serialOr(spec.IntSerial, spec.Seed+"/int"), SerialRaw: spec.IntSerialRaw, NotBefore: iw.NotBefore, NotAfter: iw.NotAfter, CA: true, CRLDP: spec.RootCRLDP, AKI: aki}, p.Root)
+	p.TcbSig = MakeCert(CertSpec{CN: CNTcbSigner, KeyLabel: spec.Seed + "/tcb", Serial: serialOr(spec.TcbSerial, spec.Seed+"/tcb"), SerialRaw: spec.TcbSerialRaw, NotBefore: tw.NotBefore, NotAfter: tw.NotAfter, CRLDP: spec.RootCRLDP, AKI: aki}, p.Root)
 	if spec.SameSigner {
 		p.QeSig = p.TcbSig
 	} else {
@@ -282,6 +296,7 @@ type LeafSpec struct {
 	CA          bool
 	CRLDP       []string
 	AKI         []byte // see CertSpec.AKI
+	SerialRaw   []byte // see CertSpec.SerialRaw
 }
 
 // MakeLeaf issues a PCK leaf from issuer.
@@ -301,7 +316,7 @@ func MakeLeaf(issuer *Cert, ls LeafSpec) *Cert {
 		e.Critical = ls.SgxCritical
 		ext = []pkix.Extension{e}
 	}
-	return MakeCert(CertSpec{CN: cn, KeyLabel: ls.KeyLabel, Serial: serialOr(ls.Serial, ls.KeyLabel), NotBefore: w.NotBefore, NotAfter: w.NotAfter, CA: ls.CA, CRLDP: dp, ExtraExt: ext, AKI: ls.AKI}, issuer)
+	return MakeCert(CertSpec{CN: cn, KeyLabel: ls.KeyLabel, Serial: serialOr(ls.Serial, ls.KeyLabel), NotBefore: w.NotBefore, NotAfter: w.NotAfter, CA: ls.CA, CRLDP: dp, ExtraExt: ext, AKI: ls.AKI, SerialRaw: ls.SerialRaw}, issuer)
 }
 
 // ChainPEM concatenates PEM encodings.
@@ -316,6 +331,7 @@ func ChainPEM(cs ...*Cert) []byte {
 // CRLSpec parametrises a revocation list.
 type CRLSpec struct {
 	Revoked    [][]byte    // serial numbers (big-endian)
+	RevokedRaw [][]byte    // further entries given as the DER INTEGER content of the serial number ({0x00} zero, {0xfb} -5): hand-encoded lists only
 	RevokedAt  []time.Time // per-entry revocation time (missing / zero = ThisUpdate); the date of an entry is informational
 	Reasons    []int       // per-entry CRL reason code (missing / 0 = no reason extension); a listed serial is revoked whatever the reason says
 	ThisUpdate time.Time
